@@ -54,7 +54,7 @@ static const int ERRRC[] = { KSI_INVALID_ARGUMENT, KSI_OUT_OF_MEMORY, KSI_IO_ERR
 typedef struct Node { int type, slot, n; struct Node *kids, *parent; KSI_Rule *rules; } Node;
 typedef struct {
 	int npol, nslot;
-	Node root[MAXPOL]; KSI_Policy *pol[MAXPOL]; char name[MAXPOL][16];
+	Node root[MAXPOL]; KSI_Policy *pol[MAXPOL]; KSI_Policy *orig[MAXPOL]; char name[MAXPOL][16];
 	int slot_pol[MAXSLOT];
 	Node *slot_node[MAXSLOT];
 	const char *text; uint64_t text_hash;
@@ -62,6 +62,7 @@ typedef struct {
 
 /* ---------------------------------------------------------------- instrumented basic rules */
 static KSI_CTX *ksi; static KSI_Signature *sig; static KSI_DataHash *g_hash; static KSI_CalendarHashChain *g_cal; static KSI_PublicationsFile *g_pub;
+static uint64_t n_cloned;
 static Chain *g_chain;
 static unsigned char g_out[MAXSLOT];
 static int g_log[MAXLOG], g_nlog, g_fill, g_cur_pol, g_td_stale;
@@ -213,7 +214,7 @@ static const Node *decision_elem(const Chain *c, int last, int next) {
 }
 static void chain_free(Chain *c) {
 	int p;
-	for (p = 0; p < MAXPOL; p++) { if (c->pol[p]) KSI_Policy_free(c->pol[p]); c->pol[p] = NULL; free_list(&c->root[p]); }
+	for (p = 0; p < MAXPOL; p++) { if (c->pol[p]) KSI_Policy_free(c->pol[p]); c->pol[p] = NULL; if (c->orig[p]) KSI_Policy_free(c->orig[p]); c->orig[p] = NULL; free_list(&c->root[p]); }
 	c->npol = 0;
 }
 static int chain_build(Chain *c, const char *text) {
@@ -233,8 +234,16 @@ static int chain_build(Chain *c, const char *text) {
 		snprintf(c->name[p], sizeof(c->name[p]), "policy_%d", p & 7);
 		if (KSI_Policy_create(ksi, c->root[p].rules, c->name[p], &c->pol[p]) != KSI_OK || c->pol[p] == NULL) { fprintf(stderr, "KSI_Policy_create failed\n"); exit(3); }
 	}
-	for (p = 0; p + 1 < c->npol; p++)
-		if (KSI_Policy_setFallback(ksi, c->pol[p], c->pol[p + 1]) != KSI_OK) { fprintf(stderr, "KSI_Policy_setFallback failed\n"); exit(3); }
+	/* link from the tail; for half of the chains some policies are replaced by a KSI_Policy_clone of themselves AFTER their
+	 * fallback was set: a clone has to keep the fallback chain of the policy it was cloned from */
+	for (p = c->npol - 1; p >= 0; p--) {
+		if (p + 1 < c->npol && KSI_Policy_setFallback(ksi, c->pol[p], c->pol[p + 1]) != KSI_OK) { fprintf(stderr, "KSI_Policy_setFallback failed\n"); exit(3); }
+		if ((c->text_hash & 1) && ((c->text_hash >> (8 + p)) & 1)) {
+			KSI_Policy *cl = NULL;
+			if (KSI_Policy_clone(ksi, c->pol[p], &cl) != KSI_OK || cl == NULL) { fprintf(stderr, "KSI_Policy_clone failed\n"); exit(3); }
+			c->orig[p] = c->pol[p]; c->pol[p] = cl; n_cloned++;
+		}
+	}
 	return 0;
 bad:
 	chain_free(c);
@@ -521,6 +530,7 @@ int main(int argc, char **argv) {
 	}
 	vh_count("final_OK", n_final[0]); vh_count("final_NA", n_final[1]); vh_count("final_FAIL", n_final[2]); vh_count("final_internal_error", n_final[3]);
 	vh_count("final_NA_from_untouched_result", n_final[4]);
+	vh_count("policies_replaced_by_their_clone", n_cloned);
 	vh_count("fallback_policy_runs", n_fallback_runs); vh_count("rule_invocations", n_calls); vh_count("cases_with_4plus_rules_invoked", n_deep);
 	for (i = 1; i <= MAXPOL; i++) { char nm[48]; snprintf(nm, sizeof(nm), "chains_of_%d_policies", i); vh_count(nm, n_chainlen[i]); snprintf(nm, sizeof(nm), "cases_%d_policies_ran", i); vh_count(nm, n_ranpol[i]); }
 	for (i = 0; i < N_OUT; i++) { char nm[48]; snprintf(nm, sizeof(nm), "invoked_%s", OUTNAME[i]); vh_count(nm, n_invoked[i]); }
